@@ -1051,6 +1051,7 @@ func (c *Conn) handleBdat(arg string) {
 			dataResult <- err
 			r.CloseWithError(err)
 		}()
+		verifPoint("bdat-spawned")
 	}
 
 	c.lineLimitReader.LineLimit = 0
